@@ -74,12 +74,30 @@ def events_for(mo, M):
             ev.append(call(dict(op='rt', mo=mo, m=B(M)), lambda: make_mode(mo).dec(make_mode(mo).enc(M))))
     return ev
 
+def longlived_events(mo, msgs, reconf=()):
+    """ONE mode object for the whole sequence: enc(M), dec of that ciphertext, and for block-aligned unpadded data dec(M) then enc of it
+    (the same block value travels in both directions).  CTR: the counter is re-configured through counter.setup() along the way."""
+    import copy
+    ev = []; obj = make_mode(mo); bl = mo['sch']['B']; rc = list(reconf)
+    for j, M in enumerate(msgs):
+        if mo['mode'] == 'ctr' and rc and j % 3 == 2:
+            nonce, c0 = rc[(j // 3) % len(rc)]
+            obj.counter.setup(nonce, c0); mo = copy.deepcopy(mo); mo['nonce'] = B(nonce); mo['count0'] = B(c0)
+        e = call(dict(op='enc', mo=mo, m=B(M), live=True), lambda: obj.enc(M)); ev.append(e)
+        if e['raised'] or e['obs'] == [-1]: continue
+        Cb = bytes(e['obs'])
+        if mo['sch']['s'] != 'zero' or mo['mode'] == 'ctr': ev.append(call(dict(op='dec', mo=mo, m=B(Cb), live=True), lambda: obj.dec(Cb)))
+        if mo['sch']['s'] == 'none' and mo['mode'] in ('ecb', 'cbc') and len(M) % bl == 0 and M:
+            d = call(dict(op='dec', mo=mo, m=B(M), live=True), lambda: obj.dec(M)); ev.append(d)
+            if not d['raised'] and d['obs'] != [-1]: ev.append(call(dict(op='enc', mo=mo, m=d['obs'], live=True), lambda: obj.enc(bytes(d['obs']))))
+    return ev
+
 def classify(ctx, tr, recs):
     for rec in recs:
         e = tr['ev'][rec['step'] - 1]; mo = e['mo']; bl = mo['sch']['B']
         for cl in rec['bad']:
             attrs = dict(mode=mo['mode'], op=e['op'], cipher=mo['ci']['c'], pad=mo['sch']['s'], clause=cl['c'], raised=e['raised'],
-                         partial_last_block=(len(e['m']) % bl != 0), empty=(len(e['m']) == 0), blocklen=bl)
+                         partial_last_block=(len(e['m']) % bl != 0), empty=(len(e['m']) == 0), blocklen=bl, long_lived_object=bool(e.get('live')))
             if cl['c'] == 'must-not-raise': sym = 'raises:' + e['raised']
             elif cl['c'] == 'must-refuse': sym = 'no-raise'
             else: sym = 'wrong:' + cl['c']
@@ -119,6 +137,19 @@ def run(ctx):
                                     % ((7, 9, '') if big else (5, 6, ' (messages >= 4 bytes thinned to a third in the quick tier)')))
     ctx.sample(ev[10]); ctx.sample(ev[-1])
     validate(ctx, ev, 'toy cipher', per=40)
+    # the same classes as long-lived objects (one object per configuration for a whole message sequence; CTR counters re-configured on the way)
+    ev = []
+    for bl, alpha in ((2, (0, 1, 255)), (4, (0, 255))):
+        ci = dict(c='toy', bl=bl, keys=[list(KEY)], tweak=[])
+        iv = bytes([255, 1, 128, 7][:bl]); h = bl // 2
+        msgs = [bytes(t) for n in range(0, 2 * bl + 1) for t in itertools.product(alpha, repeat=n)]
+        rnd.shuffle(msgs); msgs = msgs[:(120 if big else 40)] + [bytes(bl), bytes(bl), b'\xff' * (3 * bl)]
+        objs = [mo_rec(m, ci, bl, s, iv if m == 'cbc' else b'') for m in ('ecb', 'cbc') for s in ('pkcs7', 'x923', 'iso', 'none')]
+        for mo in objs: ev += longlived_events(mo, msgs); ctx.mark(('live', mo['mode'], mo['sch']['s'], bl))
+        rc = [(bytes([3] * h), b'\xff' * h), (bytes(h), bytes(h)), (bytes([7, 9][:h]), b'\xff' * (h - 1) + b'\xfe'), (bytes([7, 9][:h]), bytes([1] * h))]
+        ev += longlived_events(mo_rec('ctr', ci, bl, 'none', b'', bytes([7, 9][:h]), b'\xff' * (h - 1) + b'\xfe'), msgs, rc); ctx.mark(('live', 'ctr', bl))
+    validate(ctx, ev, 'toy cipher, long-lived objects', per=40)
+    ctx.exhaustive_subspaces.append('long-lived mode objects over the toy cipher: message sequences with enc, dec of the result, dec/enc of the same unpadded blocks; CTR re-configured by counter.setup() between calls')
     # (ii) real ciphers
     import cipherrec as R
     ev = []
@@ -143,6 +174,6 @@ def run(ctx):
     def corrupt(t): t['ev'][0]['obs'][-1] ^= 1; return t
     ctx.binding_selftest('trace/Trace_Modes.tla', clean, lambda t: len(t['ev']), corrupt, 'Trace_Modes: flipped last ciphertext bit')
     ctx.assumptions += ['zero padding is excluded from "decrypt returns the message" (not injective)', 'CTR is always given its counter block; CTS is held to length, IV prefix and round trip only',
-                        'decryption always uses a second, equally configured object; every call uses fresh objects (call-history effects are C10)',
+                        'the complete message space uses fresh objects for every call (decryption on a second, equally configured object); sequences on long-lived objects are sampled here and enumerated in C10',
                         'the Python toy cipher of the harness implements Modes!ToyEnc/ToyDec']
     return ctx.finish('complete small-message space over the toy cipher on the real mode classes + residue grid over the real ciphers; every ciphertext / plaintext judged by TLC against SP 800-38A (sys/Modes)')
